@@ -151,6 +151,7 @@ class State:
         self.trace = []       # (fid, path, bb) visited blocks
         self.next_fid = 0
         self.next_heap = 0
+        self.assumed = []     # assertion checks passed over: (term, op, val, site)
 
     def copy(self):
         s = State()
@@ -162,6 +163,7 @@ class State:
         s.trace = list(self.trace)
         s.next_fid = self.next_fid
         s.next_heap = self.next_heap
+        s.assumed = list(self.assumed)
         return s
 
 
@@ -181,7 +183,7 @@ class PathResult:
 
 class Engine:
     def __init__(self, facts, inline_depth=4, max_paths=4000, summaries=None, inline_filter=None,
-                 skip_tracing=True, loop_unroll=0, havoc_loops=False, unique_impls=False, havoc_mut_args=True):
+                 skip_tracing=True, loop_unroll=0, havoc_loops=False, unique_impls=False, havoc_mut_args=True, assume_asserts=True):
         self.facts = facts
         self.inline_depth = inline_depth
         self.max_paths = max_paths
@@ -195,6 +197,7 @@ class Engine:
         self.havoc_loops = havoc_loops
         self.unique_impls = unique_impls
         self.havoc_mut_args = havoc_mut_args
+        self.assume_asserts = assume_asserts
         self.fork_index = 8             # largest constant table whose lookup by an undetermined index forks the state
         self.inlined = set()
         self.opaque = set()
@@ -459,6 +462,26 @@ class Engine:
             n -= 1 << bits
         return n
 
+    def refine(self, st, v):
+        """a comparison of a quantity the path has already pinned down (`match x { 2 => .. }` followed by `x != 0`),
+        however the comparison term was built (MIR operator, summary of a derived PartialEq ..): its constant value"""
+        if v[0] != 't':
+            return v
+        if v[1] == 'Not' and len(v[2]) == 1:
+            x = self.refine(st, v[2][0])
+            return C(int(not x[1]), 'bool') if is_int_const(x) else v
+        if v[1] in ('Eq', 'Ne', 'Lt', 'Le', 'Gt', 'Ge') and len(v[2]) == 2:
+            l_, r_ = v[2]
+            for a_, b_, flip in ((l_, r_, False), (r_, l_, True)):
+                kn = st.known.get(a_) if not is_int_const(a_) else None
+                if kn and is_int_const(b_):
+                    if kn[0] == 'eq' and isinstance(kn[1], int):
+                        a2 = C(kn[1], b_[2])
+                        return self.binop(v[1], b_ if flip else a2, a2 if flip else b_, 'bool')
+                    if kn[0] == 'ne' and b_[1] in kn[1] and v[1] in ('Eq', 'Ne'):
+                        return C(int(v[1] == 'Ne'), 'bool')
+        return v
+
     def binop(self, op, l, r, tstr):
         base = op.replace('WithOverflow', '').replace('Unchecked', '')
         with_of = op.endswith('WithOverflow')
@@ -513,7 +536,18 @@ class Engine:
         if k == 'use':
             return self.operand(st, fr, r['op'])
         if k == 'bin':
-            return self.binop(r['op'], self.operand(st, fr, r['l']), self.operand(st, fr, r['r']), dest_ty)
+            l_, r_ = self.operand(st, fr, r['l']), self.operand(st, fr, r['r'])
+            if r['op'] in ('Eq', 'Ne', 'Lt', 'Le', 'Gt', 'Ge'):
+                # a comparison of a quantity the path has already pinned down (`match x { 2 => .. if x != 0 ..`)
+                for a_, b_, flip in ((l_, r_, False), (r_, l_, True)):
+                    kn = st.known.get(a_) if not is_int_const(a_) else None
+                    if kn and is_int_const(b_):
+                        if kn[0] == 'eq' and isinstance(kn[1], int):
+                            a2 = C(kn[1], b_[2])
+                            return self.binop(r['op'], b_ if flip else a2, a2 if flip else b_, dest_ty)
+                        if kn[0] == 'ne' and b_[1] in kn[1] and r['op'] in ('Eq', 'Ne'):
+                            return C(int(r['op'] == 'Ne'), 'bool')
+            return self.binop(r['op'], l_, r_, dest_ty)
         if k == 'un':
             x = self.operand(st, fr, r['x'])
             if r['op'] == 'Not' and is_int_const(x) and x[2] == 'bool':
@@ -772,7 +806,7 @@ class Engine:
                         if not self.goto(st, fr, bb, ip, results):
                             return
                         continue
-                v = self.operand(st, fr, t['discr'])
+                v = self.refine(st, self.operand(st, fr, t['discr']))
                 if is_int_const(v):
                     tgt = t['otherwise']
                     for val, b in t['targets']:
@@ -784,6 +818,16 @@ class Engine:
                     continue
                 vals = [val for val, _ in t['targets']]
                 branches = [(('==', val), b) for val, b in t['targets']] + [(('!=', tuple(vals)), t['otherwise'])]
+                if self.assume_asserts:
+                    # `assert!(c)` / `debug_assert!(c)`: the branch that fails the assertion is not a behaviour of the
+                    # function the tables describe (whether it can fire is audited where panics matter, C14.M3); the path
+                    # continues as if the check were not there, without recording an atom
+                    keep = [(ov, b) for ov, b in branches if not mir.is_assert_failure(body, b)]
+                    if len(keep) == 1 and len(keep) < len(branches):
+                        st.assumed.append((v, keep[0][0][0], keep[0][0][1], site))
+                        if not self.goto(st, fr, bb, keep[0][1], results):
+                            return
+                        continue
                 live = []
                 for (op, val), b in branches:
                     s2 = st.copy()
